@@ -110,9 +110,14 @@ type World struct {
 
 // NewWorld creates the wallets and accounts in a scratch store.
 func NewWorld(specs []WalletSpec) (*World, error) {
+	return NewWorldIn(scratch.New(), specs)
+}
+
+// NewWorldIn creates the wallets and accounts in the given store.
+func NewWorldIn(store e2wtypes.Store, specs []WalletSpec) (*World, error) {
 	Init()
 	ctx := context.Background()
-	w := &World{Store: scratch.New(), ByPath: map[string]*AccountInfo{}}
+	w := &World{Store: store, ByPath: map[string]*AccountInfo{}}
 	enc := Encryptor()
 	for _, ws := range specs {
 		if ws.Distributed {
